@@ -40,7 +40,9 @@ GAMES = ["osu", "sm", "bms", "o2j", "base", "qua"]
 DEFAULT_GAP, DEFAULT_THRES = 150, 100        # the documented signature: full_ln(m, gap=150, ln_as_hit_thres=100)
 CALLS = ["kw", "defaults", "gap_only", "thres_only", "np", "pos_float"]
 LABELS = ["sorted", "reversed", "offset", "gappy"]
-TEMPO = ["none", "one", "tied", "unordered"]
+TEMPO = ["none", "one", "tied", "unordered", "late", "early", "on_notes"]
+# dimension 17 (which KIND of object is first / last): "late" = every tempo point / SV / stop after the last note and the only sample before the
+# first note; "early" = all of them before the first note (of every grid); "on_notes" = on grid times that notes sit on (0, 100, 300 / -50, 300.25)
 EDITS = ["shift_notes", "stack_shift", "lengthen", "one_column", "append_hit", "append_hold", "append_hit_list", "append_bpm", "rate2", "rate_half"]
 WIDE_COLUMNS = [[0, 17, 255], [9], [254, 255]]
 
@@ -97,12 +99,14 @@ def _build(case):
     m.hits = _mk(type(m.hits), [H(offset=t, column=c, **kw) for t, c in case["hits"]], lab.get("hits"))
     m.holds = _mk(type(m.holds), [L(offset=t, column=c, length=ln, **kw) for t, c, ln in case["holds"]], lab.get("holds"))
     tempo = dict(two=[(-50.0, 120.0), (250.0, 177.5)], none=[], one=[(0.0, 150.0)], tied=[(100.0, 120.0), (100.0, 240.0), (100.0, 60.0)],
-                 unordered=[(250.0, 177.5), (-50.0, 120.0), (100.0, 90.0)])[case.get("tempo", "two")]
+                 unordered=[(250.0, 177.5), (-50.0, 120.0), (100.0, 90.0)], late=[(2000000000.0, 120.0), (2000000500.0, 90.0)], early=[(-2000000000.0, 120.0)],
+                 on_notes=[(0.0, 120.0), (300.0, 90.0), (-50.0, 60.0)])[case.get("tempo", "two")]
     m.bpms = _mk(type(m.bpms), [B(offset=t, bpm=b) for t, b in tempo], lab.get("bpms"))
     if hasattr(m, "svs"):
         S = type(m.svs)._item_class()
         svs = dict(two=[(100.0, 0.5), (100.0, 2.0)], none=[], one=[(0.0, 1.5)], tied=[(100.0, 0.5), (100.0, 2.0), (100.0, 0.5)],
-                   unordered=[(300.0, 0.5), (100.0, 2.0), (200.0, 1.0)])[case.get("svs", "two")]
+                   unordered=[(300.0, 0.5), (100.0, 2.0), (200.0, 1.0)], late=[(2000000100.0, 0.5)], early=[(-2000000100.0, 2.0), (-2000000000.0, 0.5)],
+                   on_notes=[(100.0, 0.5), (300.25, 2.0), (0.0, 1.5)])[case.get("svs", "two")]
         m.svs = _mk(type(m.svs), [S(offset=t, multiplier=x) for t, x in svs], lab.get("svs"))
     if case["game"] == "sm":
         from reamber.sm import SMStop, SMMine, SMRoll, SMLift, SMFake
@@ -110,7 +114,7 @@ def _build(case):
         from reamber.sm.lists.notes import SMMineList, SMRollList, SMLiftList, SMFakeList
 
         if case.get("tempo", "two") != "none":
-            m.stops = SMStopList([SMStop(offset=100.0, length=25.0)])
+            m.stops = SMStopList([SMStop(offset=dict(late=2000000200.0, early=-2000000200.0, on_notes=0.0).get(case.get("tempo"), 100.0), length=25.0)])
         ex = case.get("extras") or {}
         if ex.get("mines"):
             m.mines = SMMineList([SMMine(offset=t, column=c) for t, c in ex["mines"]])
@@ -126,7 +130,7 @@ def _build(case):
         from reamber.osu.OsuSample import OsuSample
         from reamber.osu.lists.OsuSampleList import OsuSampleList
 
-        m.samples = OsuSampleList([OsuSample(offset=100.0, sample_file="a.wav", volume=30)])
+        m.samples = OsuSampleList([OsuSample(offset=dict(late=-2000000300.0, early=-2000000300.0, on_notes=300.0).get(case.get("tempo"), 100.0), sample_file="a.wav", volume=30)])
     return m
 
 
@@ -136,18 +140,18 @@ def _fill_fields(m):
     for lst in (m.hits, m.holds):
         df = lst.df
         n = len(df)
-        for name in [str(c) for c in df.columns]:
+        for k, name in enumerate(str(c) for c in df.columns):   # k: dimension 14 - no two columns of a row carry the same value
             if name in ("offset", "column", "length") or n == 0:
                 continue
             v = df[name].iloc[0]
             if isinstance(v, (bool,)) or type(v).__name__ == "bool_":
                 new = [i % 2 == 0 for i in range(n)]
             elif isinstance(v, int) or type(v).__name__.startswith("int"):
-                new = [(i * 3 + 1) % 5 for i in range(n)]
+                new = [(i * 3 + 1) % 5 + 5 * k for i in range(n)]
             elif isinstance(v, float) or type(v).__name__.startswith("float"):
-                new = [0.5 * i + 1 for i in range(n)]
+                new = [0.5 * i + 1 + 7 * k for i in range(n)]
             elif isinstance(v, str):
-                new = [f"s{i}.wav" for i in range(n)]
+                new = [f"s{i}_{name}.wav" for i in range(n)]
             elif isinstance(v, bytes):
                 new = [[b"0A", b"ZZ"][i % 2] for i in range(n)]
             else:
@@ -275,7 +279,13 @@ def _run_case(case):
             try:
                 m = _edit(m, edit, _game(case["game"])[1])
             except Exception as ex:
-                failed.append(("completes_for_every_game", f"the public edit {edit} between the two calls raised {type(ex).__name__}: {ex}"))
+                # the class of `completes_when_single_row_list_was_reversed` (a ONE-row list that went through [::-1] next to empty lists cannot be
+                # stacked: pd.concat raises 'Shape of passed values is (1, n), indices imply (0, n)') also arises for the one-row TEMPO lists
+                # (shapes one / early) of a chart without notes when the edit itself stacks: reported under that clause, not under this one
+                lab = case.get("labels") or {}
+                one_row_reversed = _single_row_reversed(case) or (not case["hits"] and not case["holds"] and lab.get("bpms") == "reversed" and case.get("tempo") in ("one", "early"))
+                what = "completes_when_single_row_list_was_reversed" if (one_row_reversed and isinstance(ex, ValueError) and "Shape of passed values" in str(ex)) else "completes_for_every_game"
+                failed.append((what, f"the public edit {edit} between the two calls raised {type(ex).__name__}: {ex}"))
                 break
         src = r if mode == "chain" else m      # "again": the same input object once more
         found, r = _check_call(case, src, gap, thres, how, from_case=mode != "chain", item_appended=edit in ("append_hit", "append_hold"))
@@ -481,8 +491,9 @@ def full_ln_vs_statement(rep):
                  f"35% of the charts with other row labels than 0..n-1 ({', '.join(LABELS)}) on hits / holds / tempo list / SV list independently; 25% with the tempo list and SV list {' / '.join(TEMPO)} instead of two rows; "
                  "15% with a second call (on the first result, or on the same input object again), each call checked against the notes it was given; "
                  f"17% with a second call on the SAME chart object after a public edit of it ({', '.join(EDITS)}), judged against the notes it holds then; "
-                 f"15% with non-default values in every game-specific note column (names read from the lists' frames); 8% columns from {WIDE_COLUMNS}; 6% a negative-length hold as the last note of a column; "
+                 f"15% with non-default values in every game-specific note column (names read from the lists' frames; no two columns of a row share a value); 8% columns from {WIDE_COLUMNS}; 6% a negative-length hold as the last note of a column; "
                  "classes osu, sm, bms, o2j, base Map (and quaver at 1/12); "
+                 "the shapes late / early / on_notes put every tempo point, SV and stop after the last note (sample before the first), all of them before the first note, or on times notes sit on; "
                  "every chart carries rows in each other list of its game unless its tempo list is empty; 12% of the sm charts also carry a mine / roll / lift / fake")
     rep.rule = "a case is one (game, hits, holds, gap, threshold, call form, labels, tempo / SV shape, second call); non-trivial when some column has >= 2 notes (a note with a next note exists)"
     feats = Counter()
